@@ -224,22 +224,24 @@ namespace detail
 		if(bitCount(x) < significantBitCount)
 			return -1;
 
-		genIUType const One = static_cast<genIUType>(1);
+		// Search in the unsigned counterpart: a negative key would end the loop at once and shift in sign bits
+		typedef typename detail::make_unsigned<genIUType>::type UType;
+		UType const One = static_cast<UType>(1);
 		int bitPos = 0;
 
-		genIUType key = x;
+		UType key = static_cast<UType>(x);
 		int nBitCount = significantBitCount;
 		int Step = sizeof(x) * 8 / 2;
 		while (key > One)
 		{
-			genIUType Mask = static_cast<genIUType>((One << Step) - One);
-			genIUType currentKey = key & Mask;
+			UType Mask = static_cast<UType>((One << Step) - One);
+			UType currentKey = key & Mask;
 			int currentBitCount = bitCount(currentKey);
 			if (nBitCount > currentBitCount)
 			{
 				nBitCount -= currentBitCount;
 				bitPos += Step;
-				key >>= static_cast<genIUType>(Step);
+				key >>= static_cast<UType>(Step);
 			}
 			else
 			{
